@@ -144,7 +144,10 @@ def x_prog(ctx, case):
     if programs.is_decor_skip(program):
         ctx.check(outcome == "addSkip", "decorated-skip.reported-as-skip", detail)
         return True
-    mapped = [programs.expected_outcome(exc, the_case, env) or "addError" for _, _, exc in raised]
+    # (expectFailure(reason, predicate) with a predicate raising an unrelated error: whatever object leaves
+    # expectFailure, the statement's answer is "that error")
+    by_kind = {"xfail_err": "addError"}
+    mapped = [by_kind.get(k) or programs.expected_outcome(exc, the_case, env) or "addError" for k, _, exc in raised]
     if implicit_error:
         mapped.append("addError")
     if forced:
@@ -276,7 +279,7 @@ SUBCHECKS = {"prog": x_prog, "twin": x_twin, "xfail_decor": x_xfail_decor, "forc
 
 FEATURES = ("own_exc", "expect", "force", "decor", "noupcall", "nested_cleanup", "handlers", "late_handler",
             "truthy_return", "base_handler")
-ALL_KINDS = ["fail", "error", "skip", "xfail", "uxs", "kbd", "exit", "kbdsub", "exitsub", "basedirect", "skipsub",
+ALL_KINDS = ["fail", "error", "skip", "xfail", "uxs", "kbd", "exit", "kbdsub", "exitsub", "basedirect", "xfail_err", "skip_empty", "skip2", "skipsub",
              "failsub", "mismatch"]
 
 
@@ -288,7 +291,7 @@ def run(ctx):
             if ctx.mine():
                 n += 1
                 ctx.execute("prog", {"placed": [[stage, kind]]})
-    ctx.note_space("single raise: 5 stages x 13 kinds", n)
+    ctx.note_space("single raise: 5 stages x 16 kinds", n)
     n = 0
     for stage in STAGES:
         for other in (None, "fail", "skip"):
